@@ -17,7 +17,7 @@ def main():
     checks = sys.argv[4:] or [prop]
     dst = os.path.join(HERE, 'seeded', name)
     os.makedirs(dst, exist_ok=True)
-    for f in ('patch.diff', 'demo.py', 'notes.md'):
+    for f in ('patch.diff', 'demo.py', 'demo_head.py', 'notes.md'):
         if os.path.exists(os.path.join(src, f)):
             shutil.copy(os.path.join(src, f), os.path.join(dst, f))
     v = subprocess.run([os.path.join(HERE, 'tools', 'verify_seed.sh'), dst], capture_output=True, text=True)
